@@ -44,6 +44,7 @@ let parse_action (ws : string list) : action option =
   | ["newchan"; c; fd; b] -> Some (ANewChan (ns c, ns fd, optn b))
   | ["idle"; i] -> Some (AIdle (ns i))
   | ["cancelidle"; i] -> Some (ACancelIdle (ns i))
+  | ["stopsignal"] -> Some AStopSignal
   | _ -> None
 
 type scen = {
